@@ -141,6 +141,8 @@ public:
 	// expectations of the running step
 	model::StepExp exp, alt_exp;
 	bool have_alt = false; int alt_conn = -1;
+	bool connect_burst = false;
+	bool resource_accept_fault = false; // an accept() failure of the "out of descriptors/memory" kind was injected: queued connections may legitimately wait
 	model::Model alt_model;
 	size_t step_model_events = 0;
 	bool step_has_alt_flag = false;
@@ -250,6 +252,7 @@ public:
 	{
 		uint64_t n = next_id++;
 		if (op.idm == ID_STR) return Value::str("r" + std::to_string(n));
+		if (op.idm == scen::ID_LONG) return Value::str(std::string(70, 'L') + std::to_string(n));
 		return Value::num((double)n);
 	}
 	static Value fetch_id_value(int idx) { if (idx % 2 == 0) return Value::num(idx / 2 + 1); return Value::str("f" + std::to_string(idx)); }
@@ -339,7 +342,7 @@ public:
 					if (op.d > 0 && (size_t)op.d < hs.size()) { hs.resize((size_t)op.d); cc[ci].hs_truncated = true; cc[ci].handshake_valid = false; cc[ci].poisoned = true; }
 					vd.labels.insert(cc[ci].handshake_valid ? "handshake:valid-variant" : cc[ci].hs_truncated ? "handshake:truncated" : "handshake:invalid");
 				}
-				step_single = true;   // a CONNECT is always a step of its own: the request may arrive in two pieces like any other delivery
+				if (!connect_burst) step_single = true;   // a lone CONNECT is a step of its own: the request may arrive in two pieces like any other delivery
 				deliver(c.kc, hs);
 			}
 			ModelEvent e; e.k = ModelEvent::CONNECTED; e.conn = ci; e.seq = evs.size();
@@ -367,6 +370,7 @@ public:
 			}
 			k.add_fault(calls[ca], ((op.b % 8) + 8) % 8, errs[((op.c % 12) + 12) % 12]);
 			vd.labels.insert(std::string("fault:") + calls[ca]);
+			{ int en = errs[((op.c % 12) + 12) % 12]; if (ca == 0 && en != ECONNABORTED && en != EPROTO && en != EINTR) resource_accept_fault = true; }
 			return;
 		}
 		int ci = batch_sink ? batch_conn : live_conn(op.conn);
@@ -871,6 +875,21 @@ public:
 	// bytes first and the parts of a new frame after them. A = bytes the kernel accepted. A must be the concatenation, in order,
 	// of whole frames of G (a frame may be missing only as a whole), optionally followed by a proper prefix of a later frame if
 	// the connection was closed afterwards or the daemon still holds unsent bytes.
+	// C10, "later writability events complete the frame": the daemon is idle; a connection whose socket takes bytes again (the
+	// writability edge was delivered when the block ended) must not still have a queued remainder of its last write.
+	void flush_judge()
+	{
+		simk::Kernel &k = simk::K();
+		for (size_t ci = 0; ci < cc.size(); ci++) {
+			const simk::Conn &kc = k.conns[cc[ci].kc];
+			if (!kc.accepted || kc.daemon_closed || kc.end_kind != simk::END_NONE || kc.writes.empty() || kc.blocked) continue;
+			const simk::WriteCall &w = kc.writes.back();
+			size_t total = 0; for (auto &b : w.iov) total += b.size();
+			bool pending = w.result == -EAGAIN || (w.result >= 0 && (size_t)w.result < total);
+			if (pending) { vd.add("C10/queued-bytes-not-flushed", "conn " + std::to_string(ci) + ": the socket is writable again and the daemon is idle, but " + std::to_string(total - (w.result > 0 ? (size_t)w.result : 0)) + " queued bytes of the last write were never sent"); return; }
+		}
+	}
+
 	void framing_judge()
 	{
 		simk::Kernel &k = simk::K();
@@ -1055,6 +1074,10 @@ public:
 			CConn &c = cc[ci];
 			const simk::Conn &kc = k.conns[c.kc];
 			if (kc.aborted_in_accept) continue;
+			// the daemon is idle: every connection attempt that reached a listening socket must have been accepted by now (unless the
+			// daemon was told that it is out of descriptors or memory, in which case waiting for the next attempt is its documented choice)
+			if (!kc.accepted && !kc.daemon_closed && !c.client_ended && !resource_accept_fault)
+				vd.add("model/connection-not-accepted", "conn " + std::to_string(ci) + " is still waiting in the listen queue although the daemon is idle");
 			bool should_be_open = !c.client_ended && !c.model_dropped;
 			if (c.faulty && !c.client_ended) continue; // a faulty peer may or may not have been dropped yet
 			if (c.ws && !c.handshake_valid) should_be_open = false;
@@ -1073,6 +1096,7 @@ public:
 			if (!c.model_connected && simk::K().conns[c.kc].accepted && (!c.ws || c.handshake_valid)) { c.model_connected = true; m.connect((int)ci, c.local); if (have_alt) alt_model.connect((int)ci, c.local); }
 		}
 		if (opt.ws_check) ws_judge();
+		if (opt.framing_check) flush_judge();
 		if (opt.replica_check) replica_update();
 		if (opt.model_check) {
 			// a faulty peer may be dropped by the daemon at any time (its response could not be written, its socket failed):
@@ -1160,6 +1184,32 @@ public:
 		};
 		bool first_is_solo = solo(sc.ops[next_op]);
 		while (!first_is_solo && j < sc.ops.size() && sc.ops[j].join && !solo(sc.ops[j])) j++;
+		// several connection attempts may reach the listening sockets before the daemon runs again (only connects join connects)
+		if (sc.ops[next_op].kind == CONNECT) while (j < sc.ops.size() && sc.ops[j].join && sc.ops[j].kind == CONNECT) j++;
+		connect_burst = sc.ops[next_op].kind == CONNECT && j - next_op > 1;
+		// alternative grouping of readiness events (C09): operations of distinct connections whose bytes do not depend on the model
+		// state arrive before the daemon runs again; FIFO batch order keeps the processing order, so the output must not change
+		if (sc.batching != 0 && j == next_op + 1) {
+			auto mergeable = [&](const Op &o) {
+				switch (o.kind) {
+				case ADD: case CHANGE: case REMOVE: case SET: case CALL: return (o.c & 2) == 0;
+				case FETCH: case UNFETCH: case GET: case INFO: case CONFIG: case RAWREQ: case MSG: case PREFIX: return true;
+				case END: return ((o.a % 3) + 3) % 3 + 1 == simk::END_EOF;
+				default: return false;
+				}
+			};
+			if (mergeable(sc.ops[next_op])) {
+				uint64_t h = (uint64_t)sc.batching * 0x9E3779B97F4A7C15ull + next_op * 0xD6E8FEB86659FD93ull; h ^= h >> 31; h *= 0xBF58476D1CE4E5B9ull; h ^= h >> 29;
+				size_t want = 1 + (size_t)(h % 3);
+				std::set<int> used; used.insert(live_conn(sc.ops[next_op].conn));
+				while (j < sc.ops.size() && j - next_op < want && mergeable(sc.ops[j]) && !sc.ops[j].join) {
+					int ci = live_conn(sc.ops[j].conn);
+					if (ci < 0 || used.count(ci)) break;
+					used.insert(ci); j++;
+				}
+				if (j - next_op > 1) vd.stat["regrouped_steps"]++;
+			}
+		}
 		// a step that races the clock against something else holds exactly two operations and exactly one expiry
 		// becomes due in it (both processing orders are then judged); otherwise the clock moves in a step of its own
 		for (size_t i = next_op; i < j; i++) if (sc.ops[i].kind == ADVANCE && j - next_op > 1) {
@@ -1213,7 +1263,7 @@ public:
 		step_no++;
 		apply_model(evs);
 		// (after the model saw this step, so that symbolic references of the next operation resolve as they would one step later)
-		if (sc.early_prefix != 0 && step_single && j < sc.ops.size() && plain_request(sc.ops[j]) && !sc.ops[j].join && (j + 1 >= sc.ops.size() || !sc.ops[j + 1].join)) {
+		if (sc.early_prefix != 0 && sc.batching == 0 && step_single && j < sc.ops.size() && plain_request(sc.ops[j]) && !sc.ops[j].join && (j + 1 >= sc.ops.size() || !sc.ops[j + 1].join)) {
 			int ci_now = live_conn(sc.ops[cur_op].conn), ci_next = live_conn(sc.ops[j].conn);
 			bool cur_is_conn_op = sc.ops[cur_op].kind != CONNECT && sc.ops[cur_op].kind != ADVANCE && sc.ops[cur_op].kind != FAULT;
 			if (cur_is_conn_op && ci_next >= 0 && ci_next != ci_now && !cc[ci_next].client_ended && !cc[ci_next].poisoned && simk::K().conns[cc[ci_next].kc].accepted && !simk::K().conns[cc[ci_next].kc].daemon_closed) {
